@@ -666,6 +666,16 @@ impl Scenario for Death {
                     bad
                 };
                 let clean_ok = got_closeok && r == "Ok" && !corrupt_emitted;
+                // a fault that was never presented (a frame / write call index the session does
+                // not reach) leaves the session as it is without faults: it ends cleanly or,
+                // where somebody waits on the consumer for ever, by the silent scripted server
+                // being declared dead
+                let presented = match fault {
+                    "malformed" => corrupt_emitted,
+                    "eof" | "readerr" | "readerr-interrupted" | "writeerr" => o.fault_injected,
+                    _ => true,
+                };
+                let clean_ok = clean_ok || (!presented && r == "Err(MissedServerHeartbeats)");
                 if !want.contains(&r) && !clean_ok {
                     v.push((format!("death:close-result:{}", r), format!("Connection::close returned {} expected {:?} (fault {}); main log {:?}", r, want, fault, main)));
                 }
